@@ -47,7 +47,7 @@ def meta(tier):
         'level': 'fault_enumeration',
         'rule': ('(a) 14 operators x adversarial pool^2 (0/-0 divisors, 1e308, +-10**400, negative bases x fractional exponents, '
                  'inf/nan, datetimes at year 1/100/9999) and unary x pool through evaluate_expression; (b) every library function x '
-                 'argument lists of length 0..arity+1 from all types under LibrarySpy, debug on/off; (c) fault enumeration: in '
+                 'argument lists of length 0..arity+1 from all types under LibrarySpy, debug on/off, every failing call repeated through evaluate_expression with options None / {} / debug without a logFn key, and failing expressions through the exported data functions without options; (c) fault enumeration: in '
                  'generated programs the k-th host call raises each of KeyError, ZeroDivisionError, RecursionError, a custom '
                  'Exception, ValueArgsError(return value) and BareScriptRuntimeError (must propagate), for every call position k, '
                  'compared with the reference call-wrapper semantics; (d) generated programs with / % ** over adversarial initial '
@@ -255,6 +255,7 @@ def run_library(spec, acc, api, con):
                             ('stringFromCharCode', [1114112]), ('datetimeNew', [9999, 12, 32]), ('schemaValidate', [{}, 'X', 1]), ('schemaParse', [5]),
                             ('arrayJoin', [[float('inf'), [float('nan')]], ',']), ('jsonStringify', [[float('inf')]]), ('stringNew', [{'a': float('nan')}])]:
             lib_case(fname, [x if callable(x) else copy.deepcopy(x) for x in args], True, acc, api, con, spy)
+        data_functions_without_options(acc, api)
 
 
 DOCUMENTED_FAILURE = {'arrayIndexOf': -1, 'arrayLastIndexOf': -1, 'arrayLength': 0, 'objectHas': False, 'stringIndexOf': -1,
@@ -337,6 +338,48 @@ def lib_case(fname, args, debug, acc, api, con, spy):
         acc.violation('logged-without-debug', f'{fname}: {fail_lines}', case)
     if not marker:
         acc.violation('execution-did-not-continue', f'{fname}({args!r:.300}) raised {top["raised"]}', case)
+    # the same failing call through evaluate_expression WITHOUT an options object (it is optional) and with an empty one
+    from bare_script.runtime import evaluate_expression
+    expr = {'function': {'name': fname, 'args': [{'variable': n} for n in names]}}
+    for opts in (None, {}, {'debug': True}):
+        loc = dict(zip(names, copy.deepcopy(args) if not any(callable(a) for a in args) else args))
+        loc[fname] = lib[fname]
+        try:
+            with core.alarm(10):
+                got = evaluate_expression(expr, opts, loc, False)
+        except core.CaseTimeout:
+            acc.timeouts += 1
+            return
+        except rt_err:
+            got = expected
+        except Exception as exc:  # pylint: disable=broad-except
+            acc.violation('host-exception-escaped', f'evaluate_expression({fname}({args!r:.300}), options={opts!r}) -> {type(exc).__name__}: {exc}', dict(case, options=repr(opts)))
+            return
+        acc.count('failing_calls_without_options')
+        if not refval.veq(got, expected):
+            acc.violation('failure-value', f'evaluate_expression({fname}({args!r:.300}), options={opts!r}) = {got!r:.200}, documented failure value {expected!r}', case)
+            return
+
+
+def data_functions_without_options(acc, api):
+    """The exported data functions take an optional options object: an expression whose call fails evaluates to null there too."""
+    import bare_script
+    rows = lambda: [{'a': 1, 'b': 'x'}, {'a': 2, 'b': None}]  # noqa: E731
+    for expr in ("mathSqrt('x')", 'arrayGet(b, 5)', "stringIndexOf(a, 'q')", 'nosuch(a)', "numberParseInt(b, 99)", 'datetimeYear(a)'):
+        for label, fn in (('filter_data', lambda e: bare_script.filter_data(rows(), e + ' == null')),
+                          ('add_calculated_field', lambda e: bare_script.add_calculated_field(rows(), 'cc', e)),
+                          ('join_data', lambda e: bare_script.join_data(rows(), rows(), e)),
+                          ('filter_data+vars', lambda e: bare_script.filter_data(rows(), e + ' == null', {'zz': 1})),
+                          ('filter_data+options', lambda e: bare_script.filter_data(rows(), e + ' == null', None, {}))):
+            acc.case(('data-no-options', label, expr), True)
+            acc.count('data_function_calls_without_options')
+            try:
+                fn(expr)
+            except api[2]:
+                pass  # a runtime error (undefined function) is the documented error type
+            except Exception as exc:  # pylint: disable=broad-except
+                acc.violation('host-exception-escaped', f'{label} with expression {expr!r} and no options -> {type(exc).__name__}: {exc}', {'fn': label, 'expr': expr})
+                return
 
 
 # ------------------------------------------------------------------ injected host faults (fault enumeration)
